@@ -9,7 +9,7 @@ shape and evaluation order.
 from __future__ import annotations
 
 import ast
-from typing import Dict, List, Optional, Set, Tuple
+from typing import Any, Dict, List, Optional, Set, Tuple
 
 from ..absint import DictV, GroupV, NotImpl, TupleV, UnitV, Unsupported
 from ..algebra import DIM_OPS, UNIT_OPS, check_group_ops, check_prefix_ops
@@ -412,45 +412,78 @@ def key_is_stored(rep: Report, prog: Program, rid: str) -> None:
     its own key attribute.  So what `__new__` interns under and what `__init__` stores in that attribute must be the same
     function of the arguments: a normalisation applied on one side only (padding, rounding, folding) splits them."""
     import copy
+    from ..effects import table_aliases
 
-    def resolved(fi: Any, e: ast.AST, depth: int = 0) -> str:
-        local = {}
+    def resolved(fi: Any, e: ast.AST) -> ast.AST:
+        local: Dict[str, List[ast.AST]] = {}
         for st in ast.walk(fi.node):
             if isinstance(st, ast.Assign) and len(st.targets) == 1 and isinstance(st.targets[0], ast.Name):
                 local.setdefault(st.targets[0].id, []).append(st.value)
+        ci = prog.cls(fi.cls)
 
         class D(ast.NodeTransformer):
             def visit_Name(self, n: ast.Name) -> ast.AST:
                 if isinstance(n.ctx, ast.Load) and len(local.get(n.id, [])) == 1 and n.id not in fi.params():
                     return self.visit(copy.deepcopy(local[n.id][0]))
                 return n
-        return ast.unparse(D().visit(copy.deepcopy(e))).replace(" ", "")
+
+            def visit_Call(self, n: ast.Call) -> ast.AST:
+                self.generic_visit(n)
+                # cls._key(a, b): a one-expression helper of the class that only regroups its arguments
+                if isinstance(n.func, ast.Attribute) and isinstance(n.func.value, ast.Name) and n.func.value.id in ("cls", "self", fi.cls) \
+                        and n.func.attr in ci.methods and not n.keywords:
+                    h = prog.functions[ci.methods[n.func.attr]]
+                    body = [st for st in h.node.body if not (isinstance(st, ast.Expr) and isinstance(st.value, ast.Constant))]  # type: ignore[attr-defined]
+                    hp = [p_ for p_ in h.params() if p_ not in ("cls", "self")]
+                    if len(body) == 1 and isinstance(body[0], ast.Return) and body[0].value is not None and len(hp) == len(n.args):
+                        m = dict(zip(hp, n.args))
+
+                        class S(ast.NodeTransformer):
+                            def visit_Name(self, x: ast.Name) -> ast.AST:
+                                return copy.deepcopy(m[x.id]) if x.id in m and isinstance(x.ctx, ast.Load) else x
+                        return S().visit(copy.deepcopy(body[0].value))
+                return n
+        return D().visit(copy.deepcopy(e))
     for cls, attrs in (("Dimension", ["exponents"]), ("Prefix", ["base", "exponent"])):
         new, init = prog.func(f"{cls}.__new__"), prog.func(f"{cls}.__init__")
+        tables = {"_known"} | table_aliases(new.node, "_known")
         keyexpr = None
         for n in ast.walk(new.node):
-            # cls._known.setdefault(key, self) / cls._known[key] = self / key in cls._known
-            if isinstance(n, ast.Call) and isinstance(n.func, ast.Attribute) and n.func.attr == "setdefault" and "_known" in ast.unparse(n.func.value) and n.args:
+            # <table>.setdefault(key, self) / <table>[key] = self, through `known = cls._known` too
+            if isinstance(n, ast.Call) and isinstance(n.func, ast.Attribute) and n.func.attr == "setdefault" and n.args \
+                    and ast.unparse(n.func.value).split(".")[-1] in tables:
                 keyexpr = n.args[0]
-            if isinstance(n, ast.Subscript) and "_known" in ast.unparse(n.value) and isinstance(n.ctx, ast.Store):
+            if isinstance(n, ast.Subscript) and isinstance(n.ctx, ast.Store) and ast.unparse(n.value).split(".")[-1] in tables:
                 keyexpr = n.slice
-        if keyexpr is None:
-            raise AnalysisError(f"{cls}.__new__: no store into _known found (R02.13 anchor moved)")
-        ktxt = resolved(new, keyexpr)
-        stored = []
+        stored: List[ast.AST] = []
         for a in attrs:
-            vals = [st.value for st in ast.walk(init.node) if isinstance(st, ast.Assign) and len(st.targets) == 1
-                    and isinstance(st.targets[0], ast.Attribute) and isinstance(st.targets[0].value, ast.Name) and st.targets[0].value.id == "self"
-                    and st.targets[0].attr == a]
+            vals: List[ast.AST] = []
+            for st in ast.walk(init.node):
+                if not isinstance(st, (ast.Assign, ast.AnnAssign)) or getattr(st, "value", None) is None:
+                    continue
+                for t in (st.targets if isinstance(st, ast.Assign) else [st.target]):
+                    pairs = list(zip(t.elts, st.value.elts)) if isinstance(t, (ast.Tuple, ast.List)) and isinstance(st.value, (ast.Tuple, ast.List)) \
+                        and len(t.elts) == len(st.value.elts) else [(t, st.value)]
+                    for tt, vv in pairs:
+                        if isinstance(tt, ast.Attribute) and isinstance(tt.value, ast.Name) and tt.value.id == "self" and tt.attr == a:
+                            vals.append(vv)
             if len(vals) != 1:
                 stored = []
                 break
             stored.append(resolved(init, vals[0]))
-        if not stored:
-            rep.defer(AnalysisError(f"{cls}.__init__: key attributes {attrs} are not each assigned once"))
+        if keyexpr is None or not stored:
+            # not a shape this rule reads: no verdict from it (the other key rules R02.1 / R02.2 still decide the constructor)
+            rep.defer(AnalysisError(f"{cls}: cannot pair the key __new__ interns under with what __init__ stores in {attrs}"))
+            rep.rules[rid].floor = 0
             continue
-        want = stored[0] if len(stored) == 1 else "(" + ",".join(stored) + ")"
-        rep.check(rid, f"{cls}:key-vs-attribute", ktxt == want,
+        k = resolved(new, keyexpr)
+        ktxt = ast.unparse(k).replace(" ", "")
+        want = ast.unparse(stored[0]).replace(" ", "") if len(stored) == 1 else "(" + ",".join(ast.unparse(x).replace(" ", "") for x in stored) + ")"
+        calls = any(isinstance(x, ast.Call) for x in ast.walk(k)) or any(isinstance(x, ast.Call) for e in stored for x in ast.walk(e))
+        names_k = [x.id for x in ast.walk(k) if isinstance(x, ast.Name)]
+        names_s = [x.id for e in stored for x in ast.walk(e) if isinstance(x, ast.Name)]
+        ok = ktxt == want or (not calls and names_k == names_s)
+        rep.check(rid, f"{cls}:key-vs-attribute", ok,
                   f"{cls}.__new__ interns under `{ktxt}` while {cls}.__init__ stores `{want}` in {', '.join('self.' + a for a in attrs)}: the object does not sit "
                   "under the value of its own key attribute, so table walks that re-key by it (Dimension.define) raise KeyError or lose entries, and an "
                   "equal construction misses it", new.where(keyexpr))
